@@ -722,7 +722,8 @@ func init() {
 						}
 					}
 					d["first_failing_option_set"] = c04MaskString(mask)
-					r.Fail(x, clause+":"+name, fmt.Sprintf("%s options=%s", sig, c04MaskString(mask&(c04Relevant(gov)|1))), d)
+					// the rule and the class of the place are the violation's identity: shrinking stays within them
+					r.Fail(x, clause+":"+name+" at="+locClass(where), fmt.Sprintf("%s options=%s", sig, c04MaskString(mask&(c04Relevant(gov)|1))), d)
 					if ci > 0 {
 						break // one report per case: the other option sets repeat it
 					}
